@@ -21,6 +21,7 @@ import EaselModel.Sqio.FileWindows
 import EaselModel.Sqio.EmblWin
 import EaselModel.Sqio.RevWindowGeo
 import EaselModel.Sqio.TrackerExact
+import EaselModel.Sqio.PositionSpec
 /-! # C04 — all ways of reading a sequence file agree with each other and with the file
 
 Property theorems only (proofs are glue on `Sqio/Windows.lean`, `Sqio/Refine.lean`, `Sqio/Spec.lean`).
@@ -802,5 +803,40 @@ example : (runFile {} [[⟨5, 4, true⟩, ⟨5, 4, true⟩, ⟨3, 2, true⟩], [
     (runFile {} [[⟨5, 4, true⟩, ⟨5, 4, true⟩, ⟨3, 2, true⟩], [⟨5, 4, true⟩, ⟨1, 1, false⟩]]).bpl = 5 := by decide
 
 end tracker
+
+/-! ## `esl_sqfile_Position` agrees with the sequential reader -/
+section position
+open EaselModel.Sqio.ParseFasta EaselModel.Sqio.SpecFasta
+
+/-- **Position at a record's offset, then Read = that record, for every block size**: for every record `s` of the sequential scan, every
+    block-mode FASTA handle on the file (any `B ≥ 1`, cursor anywhere) and every reused `ESL_SQ` of the right mode:
+    `esl_sqfile_Position(sqfp, s.roff)` succeeds and the next `esl_sqio_Read` returns `s` (name, description, residues, the four offsets, `L`). -/
+theorem position_then_read_eq_record (bytes : Bytes) (abc : Nat) (habc : abc ∈ [0, 1, 2, 3]) (s : Sq) (hs : s ∈ (parseFasta abc bytes).1)
+    (a : Ascii) (hf : a.file = bytes) (hb : a.linebased = false) (hr : a.recording ≠ 1) (hB : 1 ≤ a.B)
+    (hi : a.inmap = inmapFasta abc) (hfmt : a.fmt = 1) (heof : a.eofIsOk = true)
+    (sq : Sq) (hdig : sq.digital = (abc != 0)) (hsabc : sq.abc = abc) (hseq : sq.seq = #[]) (hna : 2 ≤ sq.nalloc) (hda : 2 ≤ sq.dalloc) :
+    (position a s.roff.toNat).2 = .ok ∧
+    (read (position a s.roff.toNat).1 sq).2.2 = .ok ∧
+    toRecord (read (position a s.roff.toNat).1 sq).2.1 = toRecord s :=
+  FetchWhole.fetch_eq_scan bytes abc habc s hs a hf hb hr hB hi hfmt heof sq hdig hsabc hseq hna hda
+
+/-- **Rewind agreement**: `esl_sqfile_Position(sqfp, 0)` on any block-mode FASTA handle on a non-empty file (any block size, cursor
+    anywhere), then the read loop, returns exactly the records and the final status of a fresh sequential scan (`parseFasta`, hence
+    `specFasta` by `read_all_eq_specFasta`). -/
+theorem rewind_then_read_all_eq_parseFasta (bytes : Bytes) (abc : Nat) (habc : abc ∈ [0, 1, 2, 3]) (hne : 0 < bytes.size)
+    (a : Ascii) (hf : a.file = bytes) (hb : a.linebased = false) (hr : a.recording ≠ 1) (hB : 1 ≤ a.B)
+    (hi : a.inmap = inmapFasta abc) (hfmt : a.fmt = 1) (heof : a.eofIsOk = true) :
+    (position a 0).2 = .ok ∧
+    readAllM (bytes.size + 2) (position a 0).1 (freshSq abc) = parseFasta abc bytes :=
+  PositionSpec.rewind_read_all bytes abc habc hne a hf hb hr hB hi hfmt heof
+
+/-- non-vacuity: the hypotheses are plain conditions on the handle's flags — a block-mode FASTA handle on `>a\nAC\n>b\nG\n` with `B = 3`,
+    whatever its buffer and cursor -/
+example :
+    let a : Ascii := { file := #[62, 97, 10, 65, 67, 10, 62, 98, 10, 71, 10], B := 3, fmt := 1, eofIsOk := true, inmap := inmapFasta 0 }
+    a.file = #[62, 97, 10, 65, 67, 10, 62, 98, 10, 71, 10] ∧ a.linebased = false ∧ a.recording ≠ 1 ∧ 1 ≤ a.B ∧
+    a.inmap = inmapFasta 0 ∧ a.fmt = 1 ∧ a.eofIsOk = true := ⟨rfl, rfl, by decide, by decide, rfl, rfl, rfl⟩
+
+end position
 
 end EaselModel.Props.C04
